@@ -440,7 +440,14 @@ func (c *Client) SyncCollection(ctx context.Context, path string, query *SyncQue
 		p, err := resp.Path()
 		if err != nil {
 			if err, ok := err.(*internal.HTTPError); ok && err.Code == http.StatusNotFound {
-				ret.Deleted = append(ret.Deleted, p)
+				// a response may carry several hrefs sharing one status, but
+				// never none
+				if len(resp.Hrefs) == 0 {
+					return nil, fmt.Errorf("webdav: malformed response: expected at least one href element")
+				}
+				for _, href := range resp.Hrefs {
+					ret.Deleted = append(ret.Deleted, href.Path)
+				}
 				continue
 			}
 			return nil, err
